@@ -1441,7 +1441,12 @@ func runR2(c *Ctx) {
 	if nBad == 0 {
 		c.ok("all roots|no global write", "-", fmt.Sprintf("%d public roots, none writes package-level state", len(r.roots)))
 	}
-	// exact counts the race-freedom argument relies on
+	sharedStateCounts(c)
+}
+
+// sharedStateCounts: exact counts of constructs that would give the library hidden shared state.
+func sharedStateCounts(c *Ctx) {
+	p := c.P
 	nGo, nSync, nRand := 0, 0, 0
 	var where []string
 	for _, fn := range p.Funcs {
@@ -1473,6 +1478,31 @@ func runR2(c *Ctx) {
 			c.undecided("module|"+name, "-", fmt.Sprintf("%d found (%s): the library now has internal concurrency or shared generators; the static race-freedom argument no longer applies as stated", n, strings.Join(where, ", ")))
 		}
 	}
+}
+
+
+// purityRuleG: like purityRule, and additionally reports writes to package-level state by those roots.
+func purityRuleG(id, name string, floor int, roots ...string) {
+	set := map[string]bool{}
+	for _, r := range roots {
+		set[r] = true
+	}
+	register(&Rule{ID: id, Name: name, Floor: floor,
+		Text: "R1 PURITY and R2 GLOBALS restricted to the public roots " + strings.Join(roots, ", ") + ": none of them writes memory that existed before the call, and none reads or writes mutable package-level state (caches, memo tables)",
+		Run: func(c *Ctx) {
+			filter := func(n string) bool { return set[n] }
+			runPurity(c, filter)
+			r := c.P.purityResult(filter)
+			for _, fn := range r.roots {
+				name := fname(fn)
+				if !set[name] {
+					continue
+				}
+				if es := r.globals[name]; len(es) > 0 {
+					c.bad(name+"|global write", c.P.pos(fn.Pos()), fmtEffects(es))
+				}
+			}
+		}})
 }
 
 func init() {
